@@ -742,3 +742,16 @@ func SleepAlign(d, eps time.Duration) {
 	AddTimer(time.Duration(when-s.now), func() { fired = true })
 	Point(KSleep, fmt.Sprintf("sleep %v", d), func() bool { return fired })
 }
+
+// DropPseudos retires every environment event that has not fired yet (the
+// harness enters a phase in which they must not happen any more).
+func DropPseudos() {
+	if !s.active {
+		return
+	}
+	for _, t := range s.threads {
+		if t.pseudo != nil {
+			t.finished = true
+		}
+	}
+}
